@@ -59,8 +59,11 @@ func genC07Script(r *wk.Rand, tag string) []c07Item {
 			nrun++
 			if len(runs) > 0 && r.Chance(10) {
 				run = wk.Pick(r, runs) // duplicate run ID
+			} else if r.Chance(8) {
+				// an ID is an opaque string: one with blanks around it is that ID, not its trimmed form
+				run = wk.Pick(r, []string{" ", "\n", "\t", ""}) + run + wk.Pick(r, []string{" ", "\n", "\r\n", "  "})
 			}
-			step := wk.Pick(r, []string{"echo", "echo", "echo2", "sig", "sig", "nosuchstep"})
+			step := wk.Pick(r, []string{"echo", "echo", "echo2", "sig", "sig", "nosuchstep", "chain"})
 			mode := wk.Pick(r, []string{"ok", "ok", "ok", "err", "undeclared", "badout", "panic", "gated", "gated", "badpanic", "badundeclared"})
 			var cfg any = map[string]any{"nonce": run, "mode": mode, "n": int64(i)}
 			if r.Chance(15) {
@@ -214,6 +217,26 @@ func c07Directed(r *wk.Rand) [][]c07Item {
 		out = append(out, []c07Item{startItem, {kind: "workstart", bytes: c07WorkStart(fmt.Sprintf("long-step-%d", shift), longStep, map[string]any{"nonce": "n"}), run: fmt.Sprintf("long-step-%d", shift), step: longStep}, done})
 		out = append(out, []c07Item{startItem, {kind: "workstart", bytes: c07WorkStart(longRun, "nosuchstep", map[string]any{"nonce": "n"}), run: longRun, step: "nosuchstep"},
 			{kind: "signal", bytes: c07Signal(longRun, strings.Repeat("信号", 300), map[string]any{"v": int64(1)}), run: longRun}, done})
+	}
+	// run IDs that differ only in surrounding white space are different runs; each gets its own terminal message,
+	// and a signal reaches the run whose ID it carries
+	for i, ids := range [][]string{{"ws\n"}, {" ws"}, {"ws", " ws", "ws ", "\tws\r\n"}, {" ws ", "ws"}} {
+		sc := []c07Item{startItem}
+		for j, id := range ids {
+			sc = append(sc, ws(id, []string{"sig", "echo"}[(i+j)%2], []string{"ok", "gated"}[j%2]))
+		}
+		for _, id := range ids {
+			sc = append(sc, c07Item{kind: "signal", bytes: c07Signal(id, "record", map[string]any{"v": int64(1)}), run: id})
+		}
+		out = append(out, sc, append(append([]c07Item{}, sc...), done))
+	}
+	// the "chain" step: a cycle of single-property objects behind a single-property input. Scalars in place of the
+	// input (or of a node) travel down the shorthand rule; every one of these runs gets its terminal message
+	for i, cfg := range []any{"oops", int64(5), nil, []any{}, true, map[string]any{"list": "oops"}, map[string]any{"list": map[string]any{"next": "oops"}},
+		map[string]any{"list": map[string]any{"next": map[string]any{"next": map[string]any{}}}}, map[string]any{"list": map[string]any{}}, map[string]any{}} {
+		run := fmt.Sprintf("chain%d", i)
+		it := c07Item{kind: "workstart", bytes: c07WorkStart(run, "chain", cfg), run: run, step: "chain"}
+		out = append(out, []c07Item{startItem, it, ws(run+"-after", "echo", "ok"), done}, []c07Item{startItem, ws(run+"-before", "sig", "gated"), it})
 	}
 	// the same run ID twice; unknown message ID; unknown step; many failing steps at once
 	out = append(out, []c07Item{startItem, ws("dup", "echo", "ok"), ws("dup", "echo", "ok")})
